@@ -45,13 +45,15 @@ func dir(n string) string {
 	return "BA"
 }
 
+var chunkSize = 0 // ResendRequestChunkSize of both engines (-chunk)
+
 func cfgOf(n string) tr.M {
 	role := "acc"
 	if n == "A" {
 		role = "init"
 	}
 	return tr.M{"role": role, "bs": 42, "resetOnLogon": false, "resetOnLogout": false, "resetOnDisconnect": false, "refreshOnLogon": false,
-		"chunk": 0, "persist": true, "checkLatency": true, "hbOverride": false, "hbCfg": 30}
+		"chunk": chunkSize, "persist": true, "checkLatency": true, "hbOverride": false, "hbCfg": 30}
 }
 
 func (w *world) newNode(name string) error {
@@ -136,8 +138,8 @@ func (w *world) observe(ev tr.M, id interface{}, i int) tr.M {
 	ga := append([]interface{}{}, w.n["A"].got...)
 	gb := append([]interface{}{}, w.n["B"].got...)
 	return tr.M{"tr": id, "i": i, "ev": ev, "gotA": ga, "gotB": gb, "subA": subs(pa), "subB": subs(pb),
-		"a": tr.M{"st": pa["st"], "nIn": pa["nIn"], "nOut": pa["nOut"], "conn": pa["conn"], "q": pa["q"]},
-		"b": tr.M{"st": pb["st"], "nIn": pb["nIn"], "nOut": pb["nOut"], "conn": pb["conn"], "q": pb["q"]},
+		"a":        tr.M{"st": pa["st"], "nIn": pa["nIn"], "nOut": pa["nOut"], "conn": pa["conn"], "q": pa["q"]},
+		"b":        tr.M{"st": pb["st"], "nIn": pb["nIn"], "nOut": pb["nOut"], "conn": pb["conn"], "q": pb["q"]},
 		"flightAB": len(w.net["AB"]), "flightBA": len(w.net["BA"])}
 }
 
@@ -185,7 +187,9 @@ func Main(args []string) int {
 	out := fs.String("out", "", "trace")
 	kind := fs.String("store", "memory", "memory|file")
 	repo := fs.String("repo", "/repo", "repo root")
+	chunk := fs.Int("chunk", 0, "ResendRequestChunkSize of both engines")
 	fs.Parse(args)
+	chunkSize = *chunk
 	wr, err := tr.NewWriter(*out)
 	if err != nil {
 		return 2
